@@ -1,8 +1,12 @@
 package lualite
 
 import (
+	"encoding/json"
 	"errors"
 	"fmt"
+	"os"
+	"regexp"
+	"strconv"
 	"strings"
 	"testing"
 )
@@ -20,10 +24,11 @@ func render(v Value) string {
 		return fmt.Sprintf("%q", x)
 	case *Table:
 		var parts []string
+		for i := 1; i <= x.Len(); i++ {
+			parts = append(parts, render(x.Get(float64(i))))
+		}
 		for _, k := range x.Keys() {
-			if i, ok := arrayIndex(k); ok && i <= x.Len() {
-				parts = append(parts, render(x.Get(k)))
-			} else {
+			if i, ok := arrayIndex(k); !ok || i > x.Len() {
 				parts = append(parts, fmt.Sprintf("%v=%s", k, render(x.Get(k))))
 			}
 		}
@@ -110,6 +115,9 @@ func TestLanguage(t *testing.T) {
 		// functions
 		{"closure counter", `local function counter() local n = 0 return function() n = n + 1 return n end end local c1, c2 = counter(), counter() c1() c1() return {c1(), c2()}`, `{3,1}`},
 		{"closure per iteration", `local fs = {} for i = 1, 3 do fs[i] = function() return i end end return {fs[1](), fs[2](), fs[3]()}`, `{1,2,3}`},
+		{"closure does not see later local", `x = "global" local function get() return x end local x = "local" return {get(), x}`, `{"global","local"}`},
+		{"local initializer sees outer", `local x = 1 do local x = x + 1 return x end`, `2`},
+		{"redeclared local keeps old closure", `local v = 1 local function old() return v end local v = 2 return {old(), v}`, `{1,2}`},
 		{"closure shares variable", `local x = 1 local function get() return x end x = 2 return get()`, `2`},
 		{"recursion", `local function fib(n) if n < 2 then return n end return fib(n - 1) + fib(n - 2) end return fib(15)`, `610`},
 		{"recursive global function", `function fact(n) if n <= 1 then return 1 end return n * fact(n - 1) end return fact(10)`, `3628800`},
@@ -132,7 +140,7 @@ func TestLanguage(t *testing.T) {
 		{"dotted function name", `local m = {sub = {}} function m.sub.f(a) return a + 1 end return m.sub.f(1)`, `2`},
 		// tables
 		{"constructor forms", `local k = "dyn" local t = {1, 2; x = 3, [k] = 4, [10] = 5, 6} return t`, `{1,2,6,10=5,dyn=4,x=3}`},
-		{"constructor expands last call", `local function f() return 1, 2 end return {f(), f(), x = 1}`, `{1,1,2,x=1}`},
+		{"constructor expands last call", `local function f() return 1, 2 end return {x = 1, f(), f()}`, `{1,1,2,x=1}`},
 		{"constructor trailing nil", `return #{1, 2, nil}`, `2`},
 		{"insert append", `local t = {} table.insert(t, "a") table.insert(t, "b") return t`, `{"a","b"}`},
 		{"insert shift", `local t = {1, 2, 3} table.insert(t, 1, 0) table.insert(t, 3, 1.5) return t`, `{0,1,1.5,2,3}`},
@@ -163,10 +171,10 @@ func TestLanguage(t *testing.T) {
 		{"string lib", `return {string.len("abc"), string.sub("hello", 2, 4), string.sub("hello", -3), string.sub("hello", 2), string.sub("hello", 4, 100), string.sub("hello", 3, 2), string.sub("hello", 0), string.rep("ab", 3), string.rep("x", 0), string.lower("AbC"), string.upper("aBc"), string.reverse("abc")}`,
 			`{3,"ell","llo","ello","lo","","hello","ababab","","abc","ABC","cba"}`},
 		{"string byte char", `return {string.byte("A"), string.byte("abc", 2), select('#', string.byte("abc", 1, -1)), string.char(72, 105), select('#', string.byte("", 1))}`, `{65,98,3,"Hi",0}`},
-		{"string find plain", `return {string.find("hello world", "o w"), string.find("hello", "l", 1, true), string.find("a.b", ".", 1, true), string.find("hello", "xyz") == nil, string.find("hello", "l", 4), string.find("abc", "")}`, `{5,7,3,3,2,2,true,4,4,1,0}`},
+		{"string find plain", `local r = {} local function add(...) for i = 1, select('#', ...) do r[#r + 1] = select(i, ...) end end add(string.find("hello world", "o w")) add(string.find("hello", "l", 1, true)) add(string.find("a.b", ".", 1, true)) add(string.find("hello", "xyz") == nil) add(string.find("hello", "l", 4)) add(string.find("abc", "")) add(string.find("abc", "c", -1)) return r`, `{5,7,3,3,2,2,true,4,4,1,0,3,3}`},
 		{"string format", `return {string.format("%d-%s-%%", 42, "x"), string.format("%5.2f|%g|%g", 3.14159, 0.5, 1e20), string.format("%05d|%-4d|%x|%X", 42, 7, 255, 255), string.format("%s %s", 1, 2.5), string.format("%5s|%-5s|%.2s", "ab", "ab", "abcdef"), string.format("%d", 3.99), string.format("%f", 1), string.format("%e", 12345.678), string.format("%c%c", 72, 105), string.format("%i", -3)}`,
 			`{"42-x-%"," 3.14|0.5|1e+20","00042|7   |ff|FF","1 2.5","   ab|ab   |ab","3","1.000000","1.234568e+04","Hi","-3"}`},
-		{"assert passes values", `return {assert(1, "m"), (assert("v"))}`, `{1,"m","v"}`},
+		{"assert passes values", `return {(assert("v")), assert(1, "m")}`, `{"v",1,"m"}`},
 		{"redis replies", `return {redis.error_reply("ERR x").err, redis.status_reply("OK").ok, redis.log(redis.LOG_WARNING, "m") == nil, redis.setresp(2) == nil, redis.sha1hex("")}`, `{"ERR x","OK",true,true,"da39a3ee5e6b4b0d3255bfef95601890afd80709"}`},
 		{"KEYS ARGV", `return {#KEYS, #ARGV, KEYS[1], ARGV[2], KEYS[2] == nil, type(ARGV[2])}`, `{1,2,"k1","7",true,"string"}`},
 		// pcall
@@ -237,7 +245,9 @@ func TestErrors(t *testing.T) {
 		{"syntax bad expr", `local a = = 1`, "compile", "unexpected symbol near '='"},
 		{"syntax stray token", `return 1 2`, "compile", "'<eof>' expected near '2'"},
 		{"syntax not a statement", `1 + 1`, "compile", "unexpected symbol near '1'"},
-		{"syntax expr statement", `local a a + 1`, "compile", "syntax error"},
+		{"syntax expr statement", `local a a + 1`, "compile", "'=' expected near '+'"},
+		{"syntax bad assignment target", `local a (a) = 1`, "compile", "syntax error near '='"},
+		{"syntax ambiguous call", "local a = f\n(g)()", "compile", "ambiguous syntax"},
 		{"syntax unfinished string", `return "abc`, "compile", "unfinished string"},
 		{"syntax unfinished long string", `return [[abc`, "compile", "unfinished long string"},
 		{"syntax malformed number", `return 12abc`, "compile", "malformed number near '12abc'"},
@@ -302,9 +312,9 @@ func TestStepBudget(t *testing.T) {
 	old := MaxSteps
 	defer func() { MaxSteps = old }()
 	MaxSteps = 10_000
-	for _, src := range []string{`while true do end`, `return pcall(function() while true do end end)`, `for i = 1, 0, 0 do end return 1`, `for i = 1, 1, 0 do end`} {
+	for _, src := range []string{`while true do end`, `return pcall(function() while true do end end)`, `for i = 0, 1, 0 do end return 1`, `for i = 1, 1, 0 do end`} {
 		v, err := runScript(t, src, nil, nil, nil)
-		if src == `for i = 1, 0, 0 do end return 1` {
+		if src == `for i = 0, 1, 0 do end return 1` {
 			if err != nil || v != 1.0 {
 				t.Errorf("%s: got %v, %v", src, v, err)
 			}
@@ -382,6 +392,611 @@ func TestChunkIsReusable(t *testing.T) {
 	for i := 0; i < 3; i++ {
 		if v, err := c.Run(nil, []string{"a"}, nil); err != nil || v != "a!" {
 			t.Fatalf("run %d: %v %v", i, v, err)
+		}
+	}
+}
+
+// ---------------------------------------------------------------------------------------------------------------
+// A tiny fake Redis used as Host. Conversions to Lua follow Redis: integer -> number, bulk -> string, nil -> false,
+// status -> {ok=...}, array -> table.
+
+type fakeRedis struct {
+	strs   map[string]string
+	hashes map[string]map[string]string
+	docs   map[string]map[string]any // JSON documents (top-level fields only)
+	expire map[string]int64          // absolute expiry in ms
+	nowMs  int64
+	usec   int64 // microsecond part reported by TIME
+	log    []string
+}
+
+func newFakeRedis() *fakeRedis {
+	return &fakeRedis{strs: map[string]string{}, hashes: map[string]map[string]string{}, docs: map[string]map[string]any{},
+		expire: map[string]int64{}, nowMs: 1700000000000, usec: 123456}
+}
+
+var (
+	errWrongType = errors.New("WRONGTYPE Operation against a key holding the wrong kind of value")
+	errNotInt    = errors.New("ERR value is not an integer or out of range")
+	errSyntax    = errors.New("ERR syntax error")
+	statusOK     = func() Value { t := NewTable(); t.Set("ok", "OK"); return t }
+)
+
+func (r *fakeRedis) exists(k string) bool {
+	_, s := r.strs[k]
+	_, h := r.hashes[k]
+	_, d := r.docs[k]
+	return s || h || d
+}
+
+func (r *fakeRedis) del(k string) bool {
+	ok := r.exists(k)
+	delete(r.strs, k)
+	delete(r.hashes, k)
+	delete(r.docs, k)
+	delete(r.expire, k)
+	return ok
+}
+
+func (r *fakeRedis) incr(k string, by string, sign int64) (Value, error) {
+	if _, ok := r.hashes[k]; ok {
+		return nil, errWrongType
+	}
+	cur := int64(0)
+	if s, ok := r.strs[k]; ok {
+		n, err := strconv.ParseInt(s, 10, 64)
+		if err != nil {
+			return nil, errNotInt
+		}
+		cur = n
+	}
+	n, err := strconv.ParseInt(by, 10, 64)
+	if err != nil {
+		return nil, errNotInt
+	}
+	cur += sign * n
+	r.strs[k] = strconv.FormatInt(cur, 10)
+	return float64(cur), nil
+}
+
+func (r *fakeRedis) bitfield(a []string, readonly bool) (Value, error) {
+	if _, ok := r.hashes[a[1]]; ok {
+		return nil, errWrongType
+	}
+	out := NewTable()
+	for i := 2; i < len(a); {
+		op := strings.ToUpper(a[i])
+		if (op != "GET" && op != "SET") || (op == "SET" && readonly) || a[i+1] != "u1" {
+			return nil, errSyntax
+		}
+		off, err := strconv.ParseInt(a[i+2], 10, 64)
+		if err != nil || off < 0 {
+			return nil, errors.New("ERR bit offset is not an integer or out of range")
+		}
+		b := []byte(r.strs[a[1]])
+		byteIdx, mask := int(off/8), byte(0x80>>(off%8))
+		old := 0.0
+		if byteIdx < len(b) && b[byteIdx]&mask != 0 {
+			old = 1
+		}
+		out.Append(old)
+		if op == "GET" {
+			i += 3
+			continue
+		}
+		for len(b) <= byteIdx {
+			b = append(b, 0)
+		}
+		if a[i+3] == "1" {
+			b[byteIdx] |= mask
+		} else {
+			b[byteIdx] &^= mask
+		}
+		r.strs[a[1]] = string(b)
+		i += 4
+	}
+	return out, nil
+}
+
+func (r *fakeRedis) Call(a []string) (Value, error) {
+	r.log = append(r.log, strings.Join(a, " "))
+	switch cmd := strings.ToUpper(a[0]); cmd {
+	case "GET":
+		if _, ok := r.hashes[a[1]]; ok {
+			return nil, errWrongType
+		}
+		if s, ok := r.strs[a[1]]; ok {
+			return s, nil
+		}
+		return false, nil
+	case "SET":
+		nx, exp := false, int64(0)
+		for i := 3; i < len(a); i++ {
+			switch opt := strings.ToUpper(a[i]); opt {
+			case "NX":
+				nx = true
+			case "PX", "PXAT":
+				if i+1 >= len(a) {
+					return nil, errSyntax
+				}
+				n, err := strconv.ParseInt(a[i+1], 10, 64)
+				if err != nil {
+					return nil, errNotInt
+				}
+				if exp = n; opt == "PX" {
+					exp += r.nowMs
+				}
+				i++
+			default:
+				return nil, errSyntax
+			}
+		}
+		if nx && r.exists(a[1]) {
+			return false, nil
+		}
+		r.del(a[1])
+		r.strs[a[1]] = a[2]
+		if exp != 0 {
+			r.expire[a[1]] = exp
+		}
+		return statusOK(), nil
+	case "MSET":
+		for i := 1; i+1 < len(a); i += 2 {
+			r.del(a[i])
+			r.strs[a[i]] = a[i+1]
+		}
+		return statusOK(), nil
+	case "DEL", "EXISTS":
+		n := 0.0
+		for _, k := range a[1:] {
+			if (cmd == "DEL" && r.del(k)) || (cmd == "EXISTS" && r.exists(k)) {
+				n++
+			}
+		}
+		return n, nil
+	case "PEXPIREAT":
+		n, err := strconv.ParseInt(a[2], 10, 64)
+		if err != nil {
+			return nil, errNotInt
+		}
+		if !r.exists(a[1]) {
+			return 0.0, nil
+		}
+		r.expire[a[1]] = n
+		return 1.0, nil
+	case "INCRBY":
+		return r.incr(a[1], a[2], 1)
+	case "DECRBY":
+		return r.incr(a[1], a[2], -1)
+	case "HGET":
+		if v, ok := r.hashes[a[1]][a[2]]; ok {
+			return v, nil
+		}
+		return false, nil
+	case "HSET":
+		if len(a) < 4 || len(a)%2 != 0 {
+			return nil, errors.New("ERR wrong number of arguments for 'hset' command")
+		}
+		if r.hashes[a[1]] == nil {
+			r.hashes[a[1]] = map[string]string{}
+		}
+		added := 0.0
+		for i := 2; i < len(a); i += 2 {
+			if _, ok := r.hashes[a[1]][a[i]]; !ok {
+				added++
+			}
+			r.hashes[a[1]][a[i]] = a[i+1]
+		}
+		return added, nil
+	case "HINCRBY":
+		if r.hashes[a[1]] == nil {
+			r.hashes[a[1]] = map[string]string{}
+		}
+		cur, _ := strconv.ParseInt(r.hashes[a[1]][a[2]], 10, 64)
+		by, err := strconv.ParseInt(a[3], 10, 64)
+		if err != nil {
+			return nil, errNotInt
+		}
+		r.hashes[a[1]][a[2]] = strconv.FormatInt(cur+by, 10)
+		return float64(cur + by), nil
+	case "RENAME":
+		if !r.exists(a[1]) {
+			return nil, errors.New("ERR no such key")
+		}
+		s, isStr := r.strs[a[1]]
+		h, isHash := r.hashes[a[1]]
+		exp, hasExp := r.expire[a[1]]
+		r.del(a[1])
+		r.del(a[2])
+		if isStr {
+			r.strs[a[2]] = s
+		}
+		if isHash {
+			r.hashes[a[2]] = h
+		}
+		if hasExp {
+			r.expire[a[2]] = exp
+		}
+		return statusOK(), nil
+	case "TIME":
+		t := NewTable()
+		t.Append(strconv.FormatInt(r.nowMs/1000, 10))
+		t.Append(strconv.FormatInt(r.usec, 10))
+		return t, nil
+	case "BITFIELD", "BITFIELD_RO":
+		return r.bitfield(a, cmd == "BITFIELD_RO")
+	case "JSON.SET":
+		doc := map[string]any{}
+		if a[2] != "$" || json.Unmarshal([]byte(a[3]), &doc) != nil {
+			return nil, errSyntax
+		}
+		r.del(a[1])
+		r.docs[a[1]] = doc
+		return statusOK(), nil
+	case "JSON.GET":
+		v, ok := r.docs[a[1]][a[2]]
+		if !ok {
+			return false, nil
+		}
+		b, _ := json.Marshal(v)
+		return string(b), nil
+	case "JSON.NUMINCRBY":
+		cur, ok := r.docs[a[1]][a[2]].(float64)
+		by, err := strconv.ParseFloat(a[3], 64)
+		if !ok || err != nil {
+			return nil, errors.New("ERR path does not exist or is not a number")
+		}
+		r.docs[a[1]][a[2]] = cur + by
+		b, _ := json.Marshal(cur + by)
+		return string(b), nil
+	}
+	return nil, errors.New("ERR unknown command '" + a[0] + "'")
+}
+
+func TestRedisCallErrors(t *testing.T) {
+	r := newFakeRedis()
+	r.hashes["h"] = map[string]string{"f": "v"}
+	// a failing redis.call aborts the script with the host's message
+	_, err := runScript(t, `redis.call("SET", "a", "1") redis.call("GET", "h") return 1`, nil, nil, r)
+	var se *ScriptError
+	if !errors.As(err, &se) || se.Msg != errWrongType.Error() {
+		t.Fatalf("want ScriptError %q, got %T %v", errWrongType, err, err)
+	}
+	if r.strs["a"] != "1" {
+		t.Fatalf("effects before the error must stay")
+	}
+	// pcall catches it, the error value is the table {err=...}
+	v, err := runScript(t, `local ok, e = pcall(redis.call, "GET", "h") return {ok, type(e), e.err}`, nil, nil, r)
+	if err != nil || render(v) != `{false,"table","WRONGTYPE Operation against a key holding the wrong kind of value"}` {
+		t.Fatalf("pcall(redis.call): %s %v", render(v), err)
+	}
+	// redis.pcall returns the error table; returning it makes it the script result
+	v, err = runScript(t, `local r = redis.pcall("NOPE") if r.err then return {"caught", r.err} end return r`, nil, nil, r)
+	if err != nil || render(v) != `{"caught","ERR unknown command 'NOPE'"}` {
+		t.Fatalf("redis.pcall: %s %v", render(v), err)
+	}
+	v, err = runScript(t, `return redis.pcall("GET", "h")`, nil, nil, r)
+	if err != nil || render(v) != `{err="WRONGTYPE Operation against a key holding the wrong kind of value"}` {
+		t.Fatalf("redis.pcall result: %s %v", render(v), err)
+	}
+	// number arguments are converted with Redis' rules, replies come back as Lua values
+	r.log = nil
+	v, err = runScript(t, `return {redis.call("set", "n", 10 / 4), redis.call("incrby", "c", 2 ^ 40), redis.call("get", "n"), redis.call("get", "none"), redis.call("time")[2]}`, nil, nil, r)
+	if err != nil || render(v) != `{{ok="OK"},1099511627776,"2.5",false,"123456"}` {
+		t.Fatalf("conversions: %s %v", render(v), err)
+	}
+	if got := strings.Join(r.log, "|"); got != "set n 2.5|incrby c 1099511627776|get n|get none|time" {
+		t.Fatalf("log: %s", got)
+	}
+	// a host that returns a non-Lua value is a harness bug, not a script error
+	_, err = runScript(t, `return redis.call("X")`, nil, nil, hostFunc(func([]string) (Value, error) { return 1, nil }))
+	var ue *UnsupportedError
+	if !errors.As(err, &ue) {
+		t.Fatalf("want UnsupportedError for a Go int reply, got %T %v", err, err)
+	}
+}
+
+type hostFunc func([]string) (Value, error)
+
+func (f hostFunc) Call(a []string) (Value, error) { return f(a) }
+
+// ---------------------------------------------------------------------------------------------------------------
+// The real scripts, read from the library sources at test time.
+
+var scriptRe = regexp.MustCompile("(\\w+)\\s*=\\s*(?:rueidis\\.NewLuaScript\\w*\\()?`([^`]*)`")
+
+var repoScripts = map[string][]string{
+	"/repo/rueidislock/lock.go":                {"delkey", "extend", "acqms", "acqat", "fcqms", "fcqat"},
+	"/repo/rueidisaside/aside.go":              {"delkey", "setkey", "acquireLock"},
+	"/repo/rueidislimiter/limiter.go":          {"rateLimitScript"},
+	"/repo/om/hash.go":                         {"hashSaveScript"},
+	"/repo/om/json.go":                         {"jsonSaveScript"},
+	"/repo/rueidisprob/bloomfilter.go":         {"bloomFilterAddMultiScript", "bloomFilterExistsMultiScript", "bloomFilterExistsMultiReadOnlyScript", "bloomFilterResetScript", "bloomFilterDeleteScript"},
+	"/repo/rueidisprob/countingbloomfilter.go": {"countingBloomFilterAddMultiScript", "countingBloomFilterRemoveMultiScript", "countingBloomFilterDeleteScript"},
+	"/repo/rueidisprob/slidingbloomfilter.go":  {"slidingBloomFilterInitializeScript", "slidingBloomFilterAddMultiScript", "slidingBloomFilterExistsMultiScript", "slidingBloomFilterExistsReadOnlyMultiScript", "slidingBloomFilterResetScript"},
+}
+
+// loadScripts extracts and compiles the named scripts of one source file.
+func loadScripts(t *testing.T, file string) map[string]*Chunk {
+	t.Helper()
+	src, err := os.ReadFile(file)
+	if err != nil {
+		t.Fatalf("cannot read the library source: %v", err)
+	}
+	texts := map[string]string{}
+	for _, m := range scriptRe.FindAllStringSubmatch(string(src), -1) {
+		texts[m[1]] = m[2]
+	}
+	if len(texts) != len(repoScripts[file]) {
+		t.Fatalf("%s: found %d scripts, expected %d: the extraction regexp or the script list is out of date", file, len(texts), len(repoScripts[file]))
+	}
+	out := map[string]*Chunk{}
+	for _, name := range repoScripts[file] {
+		text, ok := texts[name]
+		if !ok || !strings.Contains(text, "redis.call") {
+			t.Fatalf("%s: script %s not found", file, name)
+		}
+		c, err := Compile(text)
+		if err != nil {
+			t.Fatalf("%s: %s does not compile: %v", file, name, err)
+		}
+		out[name] = c
+	}
+	return out
+}
+
+func TestAllRepoScriptsCompile(t *testing.T) {
+	n := 0
+	for file := range repoScripts {
+		n += len(loadScripts(t, file))
+	}
+	if n != 25 {
+		t.Fatalf("compiled %d scripts, want 25", n)
+	}
+}
+
+// run executes a chunk and compares the rendered result; it returns the commands the script issued.
+func run(t *testing.T, c *Chunk, r *fakeRedis, keys, argv []string, want string) string {
+	t.Helper()
+	r.log = nil
+	v, err := c.Run(keys, argv, r)
+	if err != nil {
+		t.Fatalf("Run(%v, %v): %T %v", keys, argv, err, err)
+	}
+	if render(v) != want {
+		t.Fatalf("Run(%v, %v) = %s, want %s\ncommands: %s", keys, argv, render(v), want, strings.Join(r.log, " | "))
+	}
+	return strings.Join(r.log, " | ")
+}
+
+func eq[T comparable](t *testing.T, what string, got, want T) {
+	t.Helper()
+	if got != want {
+		t.Fatalf("%s = %v, want %v", what, got, want)
+	}
+}
+
+func TestLockScripts(t *testing.T) {
+	s := loadScripts(t, "/repo/rueidislock/lock.go")
+	r := newFakeRedis()
+	k := []string{"lk"}
+	log := run(t, s["acqms"], r, k, []string{"id1", "1000"}, `{ok="OK"}`)
+	eq(t, "commands", log, "SET lk id1 NX PX 1000 | GET lk")
+	eq(t, "expiry", r.expire["lk"], r.nowMs+1000)
+	run(t, s["acqms"], r, k, []string{"id2", "1000"}, `false`) // NX fails: nil reply -> false
+	eq(t, "owner", r.strs["lk"], "id1")
+	run(t, s["acqat"], r, k, []string{"id2", "1700000009999"}, `false`)
+	run(t, s["extend"], r, k, []string{"id2", "1700000005000"}, `0`)
+	run(t, s["extend"], r, k, []string{"id1", "1700000005000"}, `1`)
+	eq(t, "expiry", r.expire["lk"], 1700000005000)
+	run(t, s["fcqms"], r, k, []string{"id3", "250"}, `{ok="OK"}`)
+	eq(t, "owner", r.strs["lk"], "id3")
+	eq(t, "expiry", r.expire["lk"], r.nowMs+250)
+	run(t, s["fcqat"], r, k, []string{"id4", "1700000007777"}, `{ok="OK"}`)
+	eq(t, "expiry", r.expire["lk"], 1700000007777)
+	run(t, s["delkey"], r, k, []string{"id3"}, `0`)
+	run(t, s["delkey"], r, k, []string{"id4"}, `1`)
+	eq(t, "exists", r.exists("lk"), false)
+	run(t, s["acqat"], r, k, []string{"id5", "1700000009999"}, `{ok="OK"}`)
+	eq(t, "expiry", r.expire["lk"], 1700000009999)
+	run(t, s["extend"], newFakeRedis(), k, []string{"id1", "1"}, `0`) // missing key: GET -> false ~= "id1"
+}
+
+func TestAsideScripts(t *testing.T) {
+	s := loadScripts(t, "/repo/rueidisaside/aside.go")
+	r := newFakeRedis()
+	k := []string{"ck"}
+	run(t, s["acquireLock"], r, k, []string{"lock-a", "500"}, `nil`) // acquired: returns nil
+	eq(t, "value", r.strs["ck"], "lock-a")
+	run(t, s["acquireLock"], r, k, []string{"lock-b", "500"}, `"lock-a"`) // held: returns the holder
+	run(t, s["setkey"], r, k, []string{"lock-b", "val", "9000"}, `0`)
+	log := run(t, s["setkey"], r, k, []string{"lock-a", "val", "9000"}, `{ok="OK"}`)
+	eq(t, "commands", log, "GET ck | SET ck val PX 9000")
+	eq(t, "expiry", r.expire["ck"], r.nowMs+9000)
+	run(t, s["delkey"], r, k, []string{"lock-a"}, `0`)
+	run(t, s["delkey"], r, k, []string{"val"}, `1`)
+	eq(t, "exists", r.exists("ck"), false)
+}
+
+func TestRateLimitScript(t *testing.T) {
+	s := loadScripts(t, "/repo/rueidislimiter/limiter.go")["rateLimitScript"]
+	r := newFakeRedis()
+	k := []string{"rl", "rl:exp"}
+	// ARGV: increment, next_expires_at, current_time
+	log := run(t, s, r, k, []string{"1", "5000", "1000"}, `{1,5000}`)
+	eq(t, "commands", log, "get rl:exp | set rl 0 pxat 6000 | set rl:exp 5000 pxat 6000 | incrby rl 1")
+	run(t, s, r, k, []string{"2", "9000", "2000"}, `{3,5000}`) // window still open: only increments
+	eq(t, "expiry", r.expire["rl"], 6000)
+	run(t, s, r, k, []string{"0", "9000", "5000"}, `{3,5000}`)   // expires_at == current_time is not expired
+	run(t, s, r, k, []string{"1", "10000", "5001"}, `{1,10000}`) // expired: reset
+	eq(t, "expiry", r.expire["rl:exp"], 11000)
+	eq(t, "count", r.strs["rl"], "1")
+}
+
+func TestHashSaveScript(t *testing.T) {
+	s := loadScripts(t, "/repo/om/hash.go")["hashSaveScript"]
+	r := newFakeRedis()
+	k := []string{"h:1"}
+	// ARGV[1] == '': no version check, returns ARGV[2]
+	log := run(t, s, r, k, []string{"", "x", "f1", "v1"}, `"x"`)
+	eq(t, "commands", log, "HSET h:1  x f1 v1")
+	log = run(t, s, r, k, []string{"", "x", "f1", "v2", "99999"}, `"x"`) // odd count: the last argument is the expiry
+	eq(t, "commands", log, "HSET h:1  x f1 v2 | PEXPIREAT h:1 99999")
+	eq(t, "expiry", r.expire["h:1"], 99999)
+	// versioned: the stored version must match, then it is incremented
+	k = []string{"h:2"}
+	log = run(t, s, r, k, []string{"ver", "0", "f1", "v1"}, `"1"`)
+	eq(t, "commands", log, "HGET h:2 ver | HSET h:2 ver 1 f1 v1")
+	run(t, s, r, k, []string{"ver", "1", "f1", "v2", "88888"}, `"2"`)
+	eq(t, "ver", r.hashes["h:2"]["ver"], "2")
+	eq(t, "f1", r.hashes["h:2"]["f1"], "v2")
+	eq(t, "expiry", r.expire["h:2"], 88888)
+	log = run(t, s, r, k, []string{"ver", "1", "f1", "stale"}, `nil`) // version mismatch
+	eq(t, "commands", log, "HGET h:2 ver")
+	eq(t, "f1", r.hashes["h:2"]["f1"], "v2")
+}
+
+func TestJSONSaveScript(t *testing.T) {
+	s := loadScripts(t, "/repo/om/json.go")["jsonSaveScript"]
+	r := newFakeRedis()
+	k := []string{"j:1"}
+	log := run(t, s, r, k, []string{"", "x", `{"a":1}`}, `"x"`)
+	eq(t, "commands", log, `JSON.SET j:1 $ {"a":1}`)
+	log = run(t, s, r, k, []string{"", "x", `{"a":2}`, "77777"}, `"x"`)
+	eq(t, "commands", log, `JSON.SET j:1 $ {"a":2} | PEXPIREAT j:1 77777`)
+	k = []string{"j:2"}
+	run(t, s, r, k, []string{"Ver", "0", `{"Ver":0,"a":1}`}, `"1"`) // new document
+	log = run(t, s, r, k, []string{"Ver", "1", `{"Ver":1,"a":2}`, "66666"}, `"2"`)
+	eq(t, "commands", log, `JSON.GET j:2 Ver | JSON.SET j:2 $ {"Ver":1,"a":2} | JSON.NUMINCRBY j:2 Ver 1 | PEXPIREAT j:2 66666`)
+	run(t, s, r, k, []string{"Ver", "1", `{"Ver":1,"a":3}`}, `nil`) // stale version
+	eq(t, "a", r.docs["j:2"]["a"], any(2.0))
+}
+
+func TestBloomFilterScripts(t *testing.T) {
+	s := loadScripts(t, "/repo/rueidisprob/bloomfilter.go")
+	r := newFakeRedis()
+	k := []string{"bf", "bf:c"}
+	// hashIterations = 2; elements (1,9) (1,9) (3,9): the second is a duplicate, so two new elements are counted
+	run(t, s["bloomFilterAddMultiScript"], r, k, []string{"2", "1", "9", "1", "9", "3", "9"}, `2`)
+	eq(t, "bitmap", r.strs["bf"], "\x50\x40")
+	eq(t, "counter", r.strs["bf:c"], "2")
+	run(t, s["bloomFilterAddMultiScript"], r, k, []string{"2", "3", "1"}, `2`) // all bits already set
+	log := run(t, s["bloomFilterExistsMultiScript"], r, k[:1], []string{"2", "1", "9", "1", "2", "3", "9"}, `{true,false,true}`)
+	eq(t, "first command", strings.Split(log, " | ")[0], "BITFIELD bf GET u1 1")
+	log = run(t, s["bloomFilterExistsMultiReadOnlyScript"], r, k[:1], []string{"2", "1", "9", "1", "2", "3", "9"}, `{true,false,true}`)
+	eq(t, "first command", strings.Split(log, " | ")[0], "BITFIELD_RO bf GET u1 1")
+	run(t, s["bloomFilterExistsMultiScript"], r, k[:1], []string{"3"}, `{}`) // no elements
+	log = run(t, s["bloomFilterResetScript"], r, k, nil, `1`)
+	eq(t, "commands", log, "SET bf  | SET bf:c 0")
+	run(t, s["bloomFilterExistsMultiScript"], r, k[:1], []string{"2", "1", "9"}, `{false}`)
+	run(t, s["bloomFilterDeleteScript"], r, k, nil, `1`)
+	eq(t, "exists", r.exists("bf") || r.exists("bf:c"), false)
+}
+
+func TestCountingBloomFilterScripts(t *testing.T) {
+	s := loadScripts(t, "/repo/rueidisprob/countingbloomfilter.go")
+	r := newFakeRedis()
+	k := []string{"cbf", "cbf:c"}
+	// ARGV: itemCount, indexes...
+	run(t, s["countingBloomFilterAddMultiScript"], r, k, []string{"2", "5", "9", "5", "7"}, `2`)
+	eq(t, "hash", render(hashTable(r.hashes["cbf"])), `{5="2",7="1",9="1"}`)
+
+	// ARGV: indexes..., hashIterations. Elements (5,9) (5,7) (5,3): the third would drive counter 5 below zero at
+	// its first index, so it is rolled back and not removed; 2 elements are removed.
+	log := run(t, s["countingBloomFilterRemoveMultiScript"], r, k, []string{"5", "9", "5", "7", "5", "3", "2"}, `0`)
+	eq(t, "hash", render(hashTable(r.hashes["cbf"])), `{5="0",7="0",9="0"}`)
+	if !strings.HasSuffix(log, "HINCRBY cbf 5 -1 | HINCRBY cbf 9 -1 | HINCRBY cbf 5 -1 | HINCRBY cbf 7 -1 | DECRBY cbf:c 2") {
+		t.Fatalf("commands: %s", log)
+	}
+
+	// rollback at the second index: (9,3) fails at index 3 (absent), which restores 9 so that (4,9) can be removed
+	r = newFakeRedis()
+	r.hashes["cbf"] = map[string]string{"9": "1", "4": "1"}
+	r.strs["cbf:c"] = "1"
+	log = run(t, s["countingBloomFilterRemoveMultiScript"], r, k, []string{"9", "3", "4", "9", "2"}, `0`)
+	eq(t, "hash", render(hashTable(r.hashes["cbf"])), `{4="0",9="0"}`)
+	if !strings.HasSuffix(log, "HGET cbf 9 | HINCRBY cbf 4 -1 | HINCRBY cbf 9 -1 | DECRBY cbf:c 1") {
+		t.Fatalf("commands: %s", log)
+	}
+	// nothing removable: no HINCRBY at all and the item counter is decreased by 0
+	r.hashes["cbf"] = map[string]string{"9": "1"}
+	r.strs["cbf:c"] = "1"
+	log = run(t, s["countingBloomFilterRemoveMultiScript"], r, k, []string{"9", "3", "2"}, `1`)
+	eq(t, "hash", render(hashTable(r.hashes["cbf"])), `{9="1"}`)
+	eq(t, "commands", log, "HGET cbf 9 | HGET cbf 3 | DECRBY cbf:c 0")
+
+	run(t, s["countingBloomFilterDeleteScript"], r, k, nil, `1`)
+	eq(t, "exists", r.exists("cbf") || r.exists("cbf:c"), false)
+}
+
+func hashTable(h map[string]string) *Table {
+	t := NewTable()
+	for k, v := range h {
+		t.Set(k, v)
+	}
+	return t
+}
+
+func TestSlidingBloomFilterScripts(t *testing.T) {
+	s := loadScripts(t, "/repo/rueidisprob/slidingbloomfilter.go")
+	r := newFakeRedis()
+	k := []string{"f", "f:n", "f:c", "f:nc", "f:lr"}
+	log := run(t, s["slidingBloomFilterInitializeScript"], r, k, []string{"5000"}, `1`)
+	eq(t, "commands", log, "EXISTS f f:n f:c f:nc f:lr | TIME | MSET f  f:c 0 f:n  f:nc 0 | SET f:lr 1700000000123 PX 5000 NX")
+	eq(t, "rotation expiry", r.expire["f:lr"], r.nowMs+5000)
+	log = run(t, s["slidingBloomFilterInitializeScript"], r, k, []string{"5000"}, `1`) // already initialized
+	eq(t, "commands", log, "EXISTS f f:n f:c f:nc f:lr")
+
+	// ARGV: hashIterations, windowHalf, indexes...; the rotation lock is held, so no rotation
+	run(t, s["slidingBloomFilterAddMultiScript"], r, k, []string{"2", "5000", "1", "9"}, `1`)
+	eq(t, "filter", r.strs["f"], "\x40\x40")
+	eq(t, "next filter", r.strs["f:n"], "\x40\x40")
+	eq(t, "next counter", r.strs["f:nc"], "1")
+	run(t, s["slidingBloomFilterExistsMultiScript"], r, k, []string{"2", "5000", "1", "9", "1", "2"}, `{true,false}`)
+
+	// the rotation lock expires: the next filter becomes the current one
+	r.del("f:lr")
+	r.strs["f"] = "\xff\xff" // would make everything exist if it were not replaced
+	log = run(t, s["slidingBloomFilterAddMultiScript"], r, k, []string{"2", "5000", "3", "4"}, `2`)
+	if !strings.HasPrefix(log, "TIME | SET f:lr 1700000000123 PX 5000 NX | RENAME f:n f | RENAME f:nc f:c | SET f:n  | SET f:nc 0 | BITFIELD f SET u1 3 1 | BITFIELD f:n SET u1 3 1") {
+		t.Fatalf("commands: %s", log)
+	}
+	eq(t, "filter", r.strs["f"], "\x58\x40")
+	eq(t, "next filter", r.strs["f:n"], "\x18")
+	eq(t, "counter", r.strs["f:c"], "2")
+	eq(t, "next counter", r.strs["f:nc"], "1")
+	log = run(t, s["slidingBloomFilterExistsReadOnlyMultiScript"], r, k, []string{"2", "5000", "3", "4", "1", "2", "1", "9"}, `{true,false,true}`)
+	if !strings.Contains(log, "BITFIELD_RO f GET u1 3") {
+		t.Fatalf("commands: %s", log)
+	}
+
+	log = run(t, s["slidingBloomFilterResetScript"], r, k[:4], nil, `nil`) // the script has no return statement
+	eq(t, "commands", log, "RENAME f:n f | RENAME f:nc f:c | SET f:n  | SET f:nc 0")
+	eq(t, "filter", r.strs["f"], "\x18")
+
+	// RENAME of a missing key fails and aborts the script
+	_, err := s["slidingBloomFilterResetScript"].Run([]string{"a", "b", "c", "d"}, nil, newFakeRedis())
+	var se *ScriptError
+	if !errors.As(err, &se) || se.Msg != "ERR no such key" {
+		t.Fatalf("want ScriptError ERR no such key, got %v", err)
+	}
+}
+
+func TestConcurrentRuns(t *testing.T) {
+	c, err := Compile(`local t = {} for i = 1, 100 do table.insert(t, ARGV[1] .. i) end return string.upper(table.concat(t, ","):sub(1, 5))`)
+	if err != nil {
+		t.Fatal(err)
+	}
+	done := make(chan string, 8)
+	for g := 0; g < 8; g++ {
+		go func() {
+			v, err := c.Run(nil, []string{"ab"}, nil)
+			done <- fmt.Sprintf("%v %v", v, err)
+		}()
+	}
+	for g := 0; g < 8; g++ {
+		if got := <-done; got != "AB1,A <nil>" {
+			t.Errorf("got %s", got)
 		}
 	}
 }
